@@ -59,6 +59,11 @@ func (c c13Case) source() string {
 			w.WriteString("'" + t + "'")
 		case "bs":
 			w.WriteString(`\` + a.Text)
+		case "nestsq":
+			// a nested expansion (of a parameter that is never set) whose word is single-quoted text
+			w.WriteString("${u_:-'" + a.Text + "'}")
+		case "nestdq":
+			w.WriteString(`"${u_:-'` + a.Text + `'}"`)
 		case "var":
 			fmt.Fprintf(&w, "${w%d}", i)
 		case "dqvar":
@@ -173,7 +178,10 @@ func c13Expect(c c13Case) c13Model {
 			if len(c.Args) == 0 && !strings.HasPrefix(c.Op, ":") {
 				m.Skip = "whether $@ / $* is set without positional parameters is unspecified (dash: set, bash: unset)"
 			}
-			if len(c.Args) >= 2 && allEmpty && sep == "" {
+			if len(c.Args) >= 2 && allEmpty && sep == "" && c.Param == "*" && c.DQ {
+				// "$*" is one string: nothing joined with nothing is null (dash and bash agree)
+				null = true
+			} else if len(c.Args) >= 2 && allEmpty && sep == "" {
 				m.Skip = "$* of several empty parameters joined with nothing: null or not is unspecified"
 			}
 		}
@@ -203,6 +211,16 @@ func c13Expect(c c13Case) c13Model {
 				// inside double-quotes a backslash that escapes nothing stays
 				t = `\` + t
 			}
+			q = true
+		case "nestsq":
+			// the nested word is double-quoted text exactly where this word is:
+			// not in the pattern of % and #, which is scanned as if unquoted
+			if q {
+				t = "'" + t + "'"
+			}
+			q = true
+		case "nestdq":
+			t = "'" + t + "'"
 			q = true
 		case "dqvar":
 			q = true
@@ -528,10 +546,11 @@ func TestC13(t *testing.T) {
 		{{"canary", ""}},
 		{{"lit", "a"}, {"canary", ""}, {"sq", " "}},
 		{{"bs", "a"}, {"bs", "}"}, {"bs", " "}},
+		{{"nestsq", "W Q"}, {"nestdq", "l"}},
 	}
 	patsets := [][]wAtom{
 		nil,
-		{{"lit", "X*"}}, {{"lit", "*X"}}, {{"sq", "*"}}, {{"var", "?l"}}, {{"dqvar", "?l"}}, {{"lit", "[a-v]"}}, {{"lit", "*"}}, {{"canary", ""}}, {{"lit", "l{1"}, {"sq", "}"}}, {{"lit", "{2"}, {"sq", "}"}}, {{"lit", "X.l"}},
+		{{"lit", "X*"}}, {{"lit", "*X"}}, {{"sq", "*"}}, {{"var", "?l"}}, {{"dqvar", "?l"}}, {{"lit", "[a-v]"}}, {{"lit", "*"}}, {{"canary", ""}}, {{"lit", "l{1"}, {"sq", "}"}}, {{"lit", "{2"}, {"sq", "}"}}, {{"lit", "X.l"}}, {{"nestsq", "*"}}, {{"nestsq", "l"}}, {{"lit", "X"}, {"nestdq", "l"}}, {{"nestdq", "*"}},
 	}
 	type ifsv struct {
 		set bool
@@ -600,7 +619,7 @@ func TestC13(t *testing.T) {
 		if c.Op != "" && c.Op != "#len" {
 			k := rapid.IntRange(0, 3).Draw(rt, "natoms")
 			for i := 0; i < k; i++ {
-				kind := rapid.SampledFrom([]string{"lit", "sq", "var", "dqvar", "canary", "bs"}).Draw(rt, "atom")
+				kind := rapid.SampledFrom([]string{"lit", "sq", "var", "dqvar", "canary", "bs", "nestsq", "nestdq"}).Draw(rt, "atom")
 				text := ""
 				switch kind {
 				case "lit":
@@ -609,6 +628,8 @@ func TestC13(t *testing.T) {
 					text = rapid.SampledFrom([]string{"W Q", "*", " ", "", "a:b", "é", "}", "}"}).Draw(rt, "sq")
 				case "bs":
 					text = rapid.SampledFrom([]string{"a", " ", "$", "}", `\`, "*", "'", `"`, "é"}).Draw(rt, "bs")
+				case "nestsq", "nestdq":
+					text = rapid.SampledFrom([]string{"W Q", "*", "l", "a:b", "é", "?l"}).Draw(rt, "nest")
 				case "var", "dqvar":
 					text = valGen.Draw(rt, "wv")
 				}
